@@ -79,7 +79,21 @@ class Gen:
         self.tag += 1
         t = "t%d" % self.tag
         a, b, c = self.v(), self.v(), self.v()
-        k = r.below(36)
+        k = r.below(38)
+        if k >= 36:
+            # a fiber suspended in a resumable status that created closures over its locals; frame and closures both
+            # mutate the captured variable after each resume and read the other side's writes
+            self.note("suspended-closure")
+            sig, mask = r.choice([(":yield", ":y"), (":debug", ":d"), (":user5", ":5"), (":user6", ":6"), (":user7", ":7"),
+                                  (":debug", ":dy"), (":yield", ":yd5")])
+            n = r.range(1, 3)
+            return ("(do (var getter nil) (var setter nil) "
+                    "(def fib (fiber/new (fn [] (var x 0) (def held @[%s]) (set getter (fn [] [x (length held)])) "
+                    "(set setter (fn [v] (array/push held v) (set x v))) "
+                    "(for i 0 %d (signal %s i) (set x (+ x 100)) (def junk @[x held])) (setter (+ x 1000)) [x (length held)]) %s)) "
+                    "(def out @[]) (for i 0 %d (array/push out (resume fib) (fiber/status fib) (getter)) (def junk (seq [j :range [0 %d]] @[j])) (setter (+ i 5))) "
+                    "(array/push out (resume fib) (fiber/status fib) (getter)) (set %s getter) (show \"%s\" out))"
+                    % (b, n, sig, mask, n, r.range(1, 12), a, t))
         if k >= 34:
             self.note("operator-method")
             op = r.choice(["+", "-", "*", "/", "%", "mod", "div"])
